@@ -5073,11 +5073,21 @@ impl PeerConnectionInner {
 
         if !desc.media_sections.is_empty() {
             if will_bundle {
-                let mids: Vec<String> = desc.media_sections.iter().map(|m| m.mid.clone()).collect();
-                let value = format!("BUNDLE {}", mids.join(" "));
-                desc.session
-                    .attributes
-                    .push(Attribute::new("group", Some(value)));
+                // A section without a mid (the remote offered none) cannot be a
+                // group member; an empty token would also make the line end in a
+                // blank that does not survive a parse/print round trip.
+                let mids: Vec<String> = desc
+                    .media_sections
+                    .iter()
+                    .filter(|m| !m.mid.is_empty())
+                    .map(|m| m.mid.clone())
+                    .collect();
+                if !mids.is_empty() {
+                    let value = format!("BUNDLE {}", mids.join(" "));
+                    desc.session
+                        .attributes
+                        .push(Attribute::new("group", Some(value)));
+                }
             }
 
             // In LegacySip mode, omit a=mid entirely: legacy SIP endpoints confuse
